@@ -398,6 +398,8 @@ def perm_axioms(tape, pos, n):
 def make_rng(seed, fr=None):
     if seed is None:
         tape = O.fresh_int('unseeded_tape')
+        if fr is not None:
+            fr.ctx.events.append(('unseeded_random_source', 'RandomState(None)'))
     elif isinstance(seed, Opaque) and seed.cls == 'rng':
         return seed
     else:
